@@ -218,7 +218,7 @@ LAYER2 = {
     "C06": ["LimbShift_small"],
     "C09": ["BaseConv_spigot_small", "BaseConv_le_small", "BaseConv_be_small", "Fmt_small", "MC_Text_small"],
     "C10": ["Pow_powmod_small", "Pow_addmod_small", "Lehmer_inv_small"],
-    "C11": ["Redc_small", "Redc_square_small", "Redc_square_3limb"],
+    "C11": ["Redc_small", "Redc_square_small", "Redc_square_3limb", "Redc_square_edge_n2", "Redc_square_pastedge_n2", "Redc_square_edge_n3", "Redc_square_pastedge_n3", "Redc_mul_edge_n2", "Redc_mul_pastedge_n2"],
     "C12": ["Lehmer_prefix_small", "Lehmer_full_small", "Lehmer_ext_small", "Lehmer_ext_narrow"],
     "C13": ["Pow_pow_small", "Root_small", "Log_small"],
     "C14": ["Knuth_small", "Div_small", "MG10_2x1_small", "MG10_3x2_small", "MG10_recip2_small"],
